@@ -52,6 +52,12 @@ def generate(seed: int, tier: str):
         ncomp = rng.randint(1, 4)
         ncls = rng.choice([2, 2, 3])
         n = max(n, ncomp + 2, 2 * ncls + 2)
+        few = rng.random() < 0.15
+        if few:
+            # as few images as the property allows (N >= n_components + 1): n_components >= 0.8 N selects the exact solver
+            ncomp = rng.randint(3, 6)
+            ncls = 2
+            n = ncomp + rng.randint(1, 2)
         container = rng.choice(["numpy", "dask_rows", "dask_rows", "dask_one", "dask_img"])
         if container == "dask_one" and n > 40:
             container = "dask_rows"
@@ -73,8 +79,8 @@ def generate(seed: int, tier: str):
         else:
             chunks = None
         sc["stack"] = {"n": n, "shape": shape, "ncomp": ncomp, "ncls": ncls, "gap": rng.choice([1.5, 2.0, 3.0]), "noise": rng.choice([0.0, 0.02, 0.05, 0.1]),
-                       "mask": rng.choice(["none", "none", "binary", "soft"]), "container": container, "chunks": chunks, "data_seed": rng.randrange(1 << 30),
-                       "kseed": rng.choice([0, 1, rng.randrange(100)]), "planted": rng.random() < 0.6}
+                       "mask": rng.choice(["none", "none", "binary", "soft", "softpos"]), "container": container, "chunks": chunks, "data_seed": rng.randrange(1 << 30),
+                       "kseed": rng.choice([0, 1, rng.randrange(100)]), "planted": (rng.random() < 0.6) and not few}
     else:
         b = rng.choice([7, 8, 9])
         n = rng.randint(8, 24)
@@ -105,6 +111,8 @@ def make_stack(p):
         r = np.sqrt(((zz - c[0]) / (shape[0] / 2)) ** 2 + ((yy - c[1]) / (shape[1] / 2)) ** 2 + ((xx - c[2]) / (shape[2] / 2)) ** 2)
         if p["mask"] == "binary":
             mask = (r <= 0.9).astype(np.float32)
+        elif p["mask"] == "softpos":
+            mask = (0.15 + 0.85 * np.exp(-(r ** 2) * 2.0)).astype(np.float32)  # soft, nowhere zero, nowhere one
         else:
             mask = np.clip(1.5 - 1.5 * r, 0, 1).astype(np.float32)
         mflat = mask.ravel().astype(np.float64)
@@ -112,7 +120,8 @@ def make_stack(p):
     ncls = p["ncls"]
     labels = rg.integers(0, ncls, size=n)
     labels[:ncls] = np.arange(ncls)  # every class present
-    labels[ncls:2 * ncls] = np.arange(ncls)
+    m2 = min(n, 2 * ncls) - ncls
+    labels[ncls:ncls + m2] = np.arange(ncls)[:m2]
     # left factors: centred, orthonormal; the first ncls-1 encode the classes when planted
     cols = []
     if p["planted"]:
